@@ -401,7 +401,12 @@ class Machine:
         k = rv[0]
         if k == 'use': return self.operand(fr, rv[1])
         if k == 'ref':
-            r = self.place_ref(fr, rv[1])
+            p = rv[1]
+            if not p.proj and fr.locals[p.local] is None:
+                # a zero-sized local is never assigned in MIR: a capture-less closure (or a fn item) referenced before any use
+                ty = fr.body.local_ty.get(p.local, '')
+                if ty.startswith('{closure@'): fr.locals[p.local] = Agg(ty, 0, [])
+            r = self.place_ref(fr, p)
             if isinstance(r, SliceHolder): return r.s
             return r
         if k == 'binop': return self.binop(rv[1], self.operand(fr, rv[2]), self.operand(fr, rv[3]))
